@@ -483,6 +483,7 @@ fn translate_block(
                 | capstone::mips_insn::MIPS_INS_BEQZ
                 | capstone::mips_insn::MIPS_INS_BGEZ
                 | capstone::mips_insn::MIPS_INS_BGTZ
+                | capstone::mips_insn::MIPS_INS_BLEZ
                 | capstone::mips_insn::MIPS_INS_BLTZ
                 | capstone::mips_insn::MIPS_INS_BNE
                 | capstone::mips_insn::MIPS_INS_BNEZ
@@ -493,6 +494,18 @@ fn translate_block(
                 | capstone::mips_insn::MIPS_INS_JAL
                 | capstone::mips_insn::MIPS_INS_JALR
                 | capstone::mips_insn::MIPS_INS_JR => {
+                    // a branch in the delay slot of a branch is UNPREDICTABLE in the
+                    // architecture; lifting it would add the successors of both branches
+                    if matches!(
+                        branch_delay,
+                        TranslateBranchDelay::DelaySlot(..)
+                            | TranslateBranchDelay::DelaySlotFallThrough(..)
+                    ) {
+                        return Err(Error::Custom(format!(
+                            "branch in a branch delay slot at 0x{:x}",
+                            instruction.address
+                        )));
+                    }
                     if bytes.len() == DEFAULT_TRANSLATION_BLOCK_BYTES && offset + 8 >= bytes.len() {
                         successors.push((address + offset as u64, None));
                         break;
